@@ -122,12 +122,12 @@ func runEntry(entry string, c caseC19, dis, tr, st bool, dump []byte) (r runC19)
 }
 
 type parsedOut struct {
-	program  []string // lines that are neither listing, trace nor stats
-	static   []listed // the disassembly
-	trace    []listed
-	stats    map[string]int
-	headers  int
-	badOrder string
+	program []string // lines that are neither listing, trace nor stats
+	listed  []listed // all instruction lines in order of appearance
+	static  []listed // the disassembly (see divide)
+	trace   []listed
+	stats   map[string]int
+	headers int
 }
 type listed struct {
 	off int
@@ -136,9 +136,7 @@ type listed struct {
 
 func splitOutput(out string) parsedOut {
 	po := parsedOut{stats: map[string]int{}}
-	lines := strings.SplitAfter(out, "\n")
-	prevStack := false
-	for _, ln := range lines {
+	for _, ln := range strings.SplitAfter(out, "\n") {
 		if ln == "" {
 			continue
 		}
@@ -146,32 +144,64 @@ func splitOutput(out string) parsedOut {
 		switch {
 		case headRe.MatchString(l):
 			po.headers++
-			prevStack = false
 		case stackRe.MatchString(l):
-			prevStack = true
+			// the operand stack shown before a traced instruction: extra text
 		case listRe.MatchString(l):
 			m := listRe.FindStringSubmatch(l)
 			off, _ := strconv.Atoi(m[1])
-			if prevStack {
-				po.trace = append(po.trace, listed{off, m[2]})
-			} else {
-				po.static = append(po.static, listed{off, m[2]})
-			}
-			prevStack = false
+			po.listed = append(po.listed, listed{off, m[2]})
 		case statRe.MatchString(l):
 			m := statRe.FindStringSubmatch(l)
 			v, _ := strconv.Atoi(m[3])
 			po.stats[m[1]+"."+m[2]] = v
-			prevStack = false
 		default:
-			if prevStack {
-				po.badOrder = "a stack line is not followed by an instruction line: " + l
-			}
 			po.program = append(po.program, ln)
-			prevStack = false
 		}
 	}
 	return po
+}
+
+// divide separates the instruction lines into the listing (printed as a
+// whole before anything runs: the first n lines when disassembly is on) and
+// the trace.
+func (po *parsedOut) divide(dis bool, n int) {
+	if dis {
+		if n > len(po.listed) {
+			n = len(po.listed)
+		}
+		po.static, po.trace = po.listed[:n], po.listed[n:]
+		return
+	}
+	po.static, po.trace = nil, po.listed
+}
+
+// lenientC19 is set when the harness does not recognise the format of the
+// introspection text any more (see calibrateC19): lines it cannot classify
+// are then extra text, which the property allows while an option is on, and
+// the program's own lines are looked for among them in order.
+var lenientC19 bool
+
+// ownLines tells whether the program's lines (the output of the run
+// without options) are what is left of out when the extra text is taken
+// away: exactly, or in lenient mode as a subsequence of whole lines.
+func ownLines(unclassified []string, want string) bool {
+	if !lenientC19 {
+		return strings.Join(unclassified, "") == want
+	}
+	wl := strings.SplitAfter(want, "\n")
+	k := 0
+	for _, ln := range unclassified {
+		for k < len(wl) && wl[k] == "" {
+			k++
+		}
+		if k < len(wl) && ln == wl[k] {
+			k++
+		}
+	}
+	for k < len(wl) && wl[k] == "" {
+		k++
+	}
+	return k == len(wl)
 }
 
 func checkC19(c caseC19) (viol string, nontrivial bool, feats []string) {
@@ -237,20 +267,18 @@ func checkC19(c caseC19) (viol string, nontrivial bool, feats []string) {
 				if r.secondRun != base.secondRun {
 					return fmt.Sprintf("%s: a later plain run of the same program gives %s; after a run without options it gives %s", name, clip(r.secondRun, 300), clip(base.secondRun, 300)), false, feats
 				}
-				if px := splitOutput(r.xout); len(px.program) > 0 || len(px.static) > 0 {
-					return fmt.Sprintf("%s: the Execute call's writer received program or listing lines: %q", name, clip(r.xout, 300)), false, feats
+				if px := splitOutput(r.xout); !lenientC19 && len(px.program) > 0 {
+					return fmt.Sprintf("%s: the Execute call's writer received lines of the program: %q", name, clip(r.xout, 300)), false, feats
 				}
-				if got, want := strings.Join(splitOutput(r.firstRunOut).program, ""), strings.Join(splitOutput(base.firstRunOut).program, ""); got != want {
-					return fmt.Sprintf("%s: the program's lines at the writer it was parsed with are %q; without options %q", name, clip(got, 300), clip(want, 300)), false, feats
+				if got, want := splitOutput(r.firstRunOut).program, base.firstRunOut; !ownLines(got, want) {
+					return fmt.Sprintf("%s: the program's lines at the writer it was parsed with are %q; without options %q", name, clip(strings.Join(got, ""), 300), clip(want, 300)), false, feats
 				}
 				continue
 			}
 			po := splitOutput(r.a.Out)
-			if po.badOrder != "" {
-				return name + ": " + po.badOrder, false, feats
-			}
-			if got := strings.Join(po.program, ""); got != base.a.Out {
-				return fmt.Sprintf("%s: the program's own output, with listing/trace/stats lines removed, is %q; without options it is %q", name, clip(got, 400), clip(base.a.Out, 400)), false, feats
+			po.divide(dis, len(ins))
+			if !ownLines(po.program, base.a.Out) {
+				return fmt.Sprintf("%s: the program's own output, with listing/trace/stats lines removed, is %q; without options it is %q", name, clip(strings.Join(po.program, ""), 400), clip(base.a.Out, 400)), false, feats
 			}
 			accepted := whole.err == nil
 			if !accepted {
@@ -275,7 +303,7 @@ func checkC19(c caseC19) (viol string, nontrivial bool, feats []string) {
 				if po.headers != 1 {
 					return fmt.Sprintf("%s: %d listing headers", name, po.headers), false, feats
 				}
-			} else if len(po.static) > 0 || po.headers > 0 {
+			} else if po.headers > 0 || (!tr && len(po.listed) > 0) {
 				return fmt.Sprintf("%s: listing lines without OptDisasm", name), false, feats
 			}
 			if tr {
@@ -337,8 +365,29 @@ func checkC19(c caseC19) (viol string, nontrivial bool, feats []string) {
 	return "", nontrivial, feats
 }
 
+// calibrateC19 makes sure the harness can still read the introspection text
+// at all. The property allows any extra text on the output writer while an
+// option is on; the harness can only separate it from the program's own
+// lines while it recognises its format (listing lines, stack and instruction
+// lines of the trace, statistics lines). If a small known program produces
+// lines it cannot classify, the format has changed and the check is
+// read leniently (see lenientC19), never a violation by itself.
+func calibrateC19() {
+	src := "var a = 1\nvar s = \"p q\"\ndef b \"n\" { x = a + 1.5; y = s + nil; z = not a }\ndef b { w = \"\" }\nbind b:first -> struct\nprint a and 2\nprint s or a\n"
+	r := runEntry("Interpret", caseC19{Src: src}, true, true, true, nil)
+	if r.pan != nil || r.a.Err != nil {
+		return // the checks proper will report it
+	}
+	po := splitOutput(r.a.Out)
+	if got := strings.Join(po.program, ""); got != "2\np q\n" {
+		lenientC19 = true
+		harness.Get("C19").SetExtra("reader_mode", "lenient: the introspection text of a known program contains lines the harness cannot classify ("+clip(got, 200)+"); unclassified lines are treated as extra text")
+	}
+}
+
 func TestC19(t *testing.T) {
 	rec := harness.Get("C19")
+	calibrateC19()
 	if path := replayPath(); path != "" {
 		var c caseC19
 		must(harness.LoadReplay(path, &c))
